@@ -33,9 +33,12 @@ Inductive item := IRec (s : nat) (r : rec) | IBar.
 
 Definition entry := (nat * rec)%type.           (* split, record : one element of an operator's applied log *)
 
+(* acknowledgements carry the checkpoint id (the count of checkpoints started in the generation), as the real ones do:
+   snapshots.Store rejects an acknowledgement whose id is not the pending one *)
 Inductive ack :=
-| AckSr (r : nat) (pos : nat -> nat)            (* runner r: positions of the splits at its barrier *)
-| AckOp (o : nat) (cut : list entry).           (* operator o: its applied log at the cut *)
+| AckSr (id : nat) (r : nat) (pos : nat -> nat) (* runner r: positions of the splits at its barrier *)
+| AckOp (id : nat) (o : nat) (cut : list entry). (* operator o: its applied log at the cut *)
+Definition ack_id (a : ack) : nat := match a with AckSr id _ _ => id | AckOp id _ _ => id end.
 
 Record pending := { p_sr : list (nat * (nat -> nat)); p_op : list (nat * list entry) }.
 
@@ -130,7 +133,7 @@ Definition step (st : state) (a : action) : state :=
         {| n := m; pos := pos st;
            chan := fun a b => if Nat.eqb a r && Nat.ltb b m then chan st a b ++ [IBar] else chan st a b;
            olog := olog st; got := got st; bars := upd (bars st) r (S (bars st r)); started := started st; pend := pend st;
-           inflight := inflight st ++ [AckSr r (pos st)]; pub := pub st |}
+           inflight := inflight st ++ [AckSr (started st) r (pos st)]; pub := pub st |}
       else st
   | ADeliver r o =>
       if Nat.ltb r m && Nat.ltb o m then
@@ -147,7 +150,7 @@ Definition step (st : state) (a : action) : state :=
               if all_in m g then
                 {| n := m; pos := pos st; chan := upd2 (chan st) r o q; olog := olog st; got := upd (got st) o [];
                    bars := bars st; started := started st; pend := pend st;
-                   inflight := inflight st ++ [AckOp o (olog st o)]; pub := pub st |}
+                   inflight := inflight st ++ [AckOp (started st) o (olog st o)]; pub := pub st |}
               else
                 {| n := m; pos := pos st; chan := upd2 (chan st) r o q; olog := olog st; got := upd (got st) o g;
                    bars := bars st; started := started st; pend := pend st; inflight := inflight st; pub := pub st |}
@@ -163,11 +166,16 @@ Definition step (st : state) (a : action) : state :=
   | AAck i =>
       match nth_error (inflight st) i, pend st with
       | Some a, Some p =>
-          let p' := match a with
-                    | AckSr r ps => {| p_sr := (r, ps) :: p_sr p; p_op := p_op p |}
-                    | AckOp o c => {| p_sr := p_sr p; p_op := (o, c) :: p_op p |}
-                    end in
           let rest := remove_nth i (inflight st) in
+          if negb (Nat.eqb (ack_id a) (started st)) then
+            (* not the pending checkpoint's id: rejected by the store, the acknowledgement is lost *)
+            {| n := m; pos := pos st; chan := chan st; olog := olog st; got := got st; bars := bars st;
+               started := started st; pend := pend st; inflight := rest; pub := pub st |}
+          else
+          let p' := match a with
+                    | AckSr _ r ps => {| p_sr := (r, ps) :: p_sr p; p_op := p_op p |}
+                    | AckOp _ o c => {| p_sr := p_sr p; p_op := (o, c) :: p_op p |}
+                    end in
           if complete m p' then
             {| n := m; pos := pos st; chan := chan st; olog := olog st; got := got st; bars := bars st;
                started := started st; pend := None; inflight := rest; pub := Some (publish m p') |}
